@@ -7,54 +7,11 @@
 (* of partition states (first input) so that the workers share them.          *)
 (* Deviation = "none" in every real check; self-test configs enable a named   *)
 (* deviation of the pinned code and TLC must produce a counterexample.        *)
-EXTENDS Tx, FiniteSets
-CONSTANTS Scripts, Seqs, Stacks, OutChoices, MaxIn, MaxOut, TrailKinds, Deviation
+EXTENDS TxGrammar
+CONSTANTS Deviation
 VARIABLES c, m
 vars == <<c, m>>
 
-(* ---- grammar pieces selectable from the cfg files ---- *)
-ScriptsQ == {<<>>, <<0>>}
-ScriptsT == {<<>>, <<0>>, <<1, 253>>}
-ScriptsR == {Rep(0, 252), Rep(1, 253), [i \in 1..65536 |-> i % 251]}      \* real CompactSize boundaries
-SeqsQ    == {<<255, 255, 255, 255>>, <<254, 255, 255, 255>>, <<0, 0, 0, 0>>}
-SeqsR    == {<<254, 255, 255, 255>>}
-StacksQ  == {<<>>, << <<>> >>, << <<1>>, <<>> >>, << <<0, 1>>, <<253>> >>}
-StacksT  == StacksQ \cup {<< <<0>> >>, << <<0>>, <<1>>, <<0, 0>> >>}
-StacksR  == {<<>>, << Rep(7, 252), <<>>, Rep(0, 253) >>, << [i \in 1..65536 |-> i % 253] >>}
-V1 == <<0, 0, 0, 0, 0, 0, 0, 0>>
-V2 == <<0, 242, 5, 42, 1, 0, 0, 128>>
-OutsQ == {TxOut(V1, <<>>), TxOut(V2, <<0>>)}
-OutsT == OutsQ \cup {TxOut(V2, <<81, 0>>)}
-OutsR == {TxOut(V2, Rep(0, 253))}
-
-(* The toy hash bodies of Native.tla recurse once per byte, which TLC cannot do on buffers of  *)
-(* 10^5 bytes; the real-size config substitutes this constant-depth stand-in (cfg: Sha256 <-). *)
-SampleHash(msg) == [i \in 1..32 |-> IF msg = <<>> THEN i
-                                   ELSE (msg[1 + ((i * 7919) % Len(msg))] + msg[Len(msg) - (i % Len(msg))] + Len(msg) + i) % 256]
-
-TxidA == [i \in 1..32 |-> IF i < 3 THEN 0 ELSE IF i < 5 THEN 1 ELSE i]
-Ins   == {TxIn(TxidA, <<1, 0, 0, 0>>, s, q) : s \in Scripts, q \in Seqs}
-RECURSIVE SeqsOver(_, _)
-SeqsOver(S, n) == IF n = 0 THEN {<<>>} ELSE {Append(s, x) : s \in SeqsOver(S, n - 1), x \in S}
-SeqsUpTo(S, lo, hi) == UNION {SeqsOver(S, k) : k \in lo..hi}
-WitChoices(n) == {<<>>} \cup {w \in SeqsOver(Stacks, n) : \E i \in 1..n : w[i] # <<>>}
-Version  == <<2, 0, 0, 0>>
-Locktime == <<0, 0, 0, 0>>
-
-Trail(kind, ser) ==
-    CASE kind = "none"   -> <<>>
-      [] kind = "zero"   -> <<0>>
-      [] kind = "one"    -> <<1>>
-      [] kind = "last"   -> <<ser[Len(ser) - 4]>>          \* a byte that occurs inside the transaction
-      [] kind = "copy"   -> ser                             \* the same transaction again
-      [] kind = "prefix" -> SubSeq(ser, 1, 6)               \* version + first bytes
-      [] kind = "zeros"  -> <<0, 0, 0, 0, 0>>
-
-Case(t, kind) == [k |-> "case", t |-> t, u |-> Trail(kind, TxSer(t))]
-CasesWithFirst(i1) ==
-    UNION {{Case(MkTx(Version, <<i1>> \o rest, outs, wit, Locktime), kind) :
-                rest \in SeqsOver(Ins, n - 1), outs \in SeqsUpTo(OutChoices, 1, MaxOut),
-                wit \in WitChoices(n), kind \in TrailKinds} : n \in 1..MaxIn}
 Buffer == TxSer(c.t) \o c.u
 Idle   == [pc |-> "Idle"]
 
